@@ -647,7 +647,11 @@ def prove(ctx, spec):
     proof['axioms'] = {k: v for k, v in ax.items()}
     if ctx.tier == 'thorough' and spec.get('leanchecker', True):
         t = time.time()
-        rc, o = sh(['lake', 'env', 'leanchecker', f'FitProps.{prop}'], cwd=LEAN)
+        rc, o = 0, ''
+        for mod in [m for m in prop_modules(prop) if m == prop or m.endswith('Go2Lean')]:   # FitProps.Cxx and FitProps.CxxGo2Lean
+            rc1, o1 = sh(['lake', 'env', 'leanchecker', f'FitProps.{mod}'], cwd=LEAN)
+            if rc1 != 0:
+                rc, o = rc1, o + f'FitProps.{mod}: ' + o1
         ctx.timing['leanchecker'] = round(time.time() - t, 2)
         proof['leanchecker'] = 'ok' if rc == 0 else 'FAILED'
         if rc != 0:
